@@ -5,7 +5,7 @@ from pv import common, gen, detsched
 
 RULE = ("(a) harness-defined probe algorithm on the real SynchronousComputationMixin+DcopComputation over random "
         "graphs (1-7 nodes, any degree incl. 0): each round every node sends a uniquely numbered message to a "
-        "random subset of neighbours, through the returned list or post_msg; (b) 15% of the computations are paused, started while paused and resumed; (c) the real maxsum (start_messages leafs / leafs_vars / all) and dsatuto "
+        "random subset of neighbours (a fifth of them relays of a message object just received), through the returned list or post_msg; (b) 15% of the computations are paused, started while paused and resumed; (c) the real maxsum (start_messages leafs / leafs_vars / all) and dsatuto "
         "computations on generated DCOPs; random FIFO schedules with biases; oracle over the send log: round ids "
         "0,1,2.. without gap, on_new_cycle(messages, i) gets exactly the algorithm messages tagged i (same objects), "
         "every other neighbour sent exactly one sync tagged i; no ComputationException; non-trivial = >= 3 "
@@ -47,11 +47,16 @@ def make_probe_class():
 
         def on_new_cycle(self, messages, cycle_id):
             out = []
+            received = [m for (m, _t) in messages.values()]
             for n in self._pick():
+                # a fifth of the messages are relays: the very message object received in this round is sent on
+                # (each object is relayed at most once, so it is never in two places at a time: in-process delivery is
+                # by reference and a message sent to two destinations is one shared mutable object)
+                msg = received.pop(self.prng.randrange(len(received))) if received and self.prng.random() < 0.2 else self._mk()
                 if self.prng.random() < 0.5:
-                    out.append((n, self._mk()))
+                    out.append((n, msg))
                 else:
-                    self.post_msg(n, self._mk())
+                    self.post_msg(n, msg)
             return out if (out or self.prng.random() < 0.5) else None
 
     return Probe, ProbeMsg
